@@ -57,7 +57,7 @@ static std::vector<Op> buildAlphabet(const std::string& name, Limits& L, const s
         for (int r : {0, 1}) { A.push_back(opRegBuild(r, r)); A.push_back(opRegSubmit(r, "app", L)); A.push_back(opRegMut(r, "px")); }
         A.push_back(opRegSubmit(0, "0", L)); A.push_back(opRegSubmit(0, "n+1", L)); A.push_back(opRegMut(0, "ch")); A.push_back(opRegExt(0, L)); A.push_back(opRegCopy(1, 0));
         A.push_back(opRegSubmitTemp(0, "app", L)); A.push_back(opRegSubmitTemp(0, "n+1", L)); A.push_back(opRegSubmitTemp(1, "0", L));
-        A.push_back(opRegMut(0, "rename")); A.push_back(opRegMut(0, "rename_held")); A.push_back(opRegMut(0, "rename_set")); A.push_back(opRegMut(1, "rename"));   // the caller renames a point of its own frame (directly / through a reference taken before an indexed set)
+        A.push_back(opRegMut(0, "rename")); A.push_back(opRegMut(0, "rename_held")); A.push_back(opRegMut(0, "rename_set")); A.push_back(opRegMut(0, "rename_after_lookup")); A.push_back(opRegMut(1, "rename"));   // the caller renames a point of its own frame (directly / through a reference taken before an indexed set)
         A.push_back(opRegHold(0)); A.push_back(opRegMutHeld(0));
         A.push_back(opStoredAddSubframe(0)); A.push_back(opStoredAddSubframe(1)); A.push_back(opRegAddSubframe(0));
         for (size_t f : {0, 1, 2}) { A.push_back(opEditStored(f, "px")); }
